@@ -15,8 +15,21 @@ RULE = ("requests: (key, counter, stream, rounds) with keys {0, !0, single bit, 
         "stream ids {0,1,2^32-1,2^32,2^64-1,random}, rounds 8/12/20; two successive batches read through fill_bytes(256), 128 x next_u32 and mixed shapes; "
         "the portable back end through the verif hook (one raw batch + counter afterwards); from_seed for edge seeds. Builds: SSE2 (default) and AVX2 (-C target-feature=+avx2); "
         "thorough: also release. extra: every returned byte attributed to the specification keystream (model-free). non-trivial = all; distinct = distinct request line")
-TRUSTED = ["the SSE2/AVX2 intrinsics are observed, not modelled instruction by instruction: the model is the row-wise algorithm they implement"]
+TRUSTED = ["the three block functions (slp.rs, sse2.rs, avx2.rs) are TRANSLATED from the current source text on every run (tools/extract_simd.py -> Generated/Simd.lean) into programs of a "
+           "register machine over vectors of 32-bit lanes, and proved equal to the row-wise model / Bernstein's block function for every state and round count "
+           "(slp/sse2/avx2_translated_is_model, translated_backends_are_keystream). Trusted there: the translator's parsing of the Rust subset the three files use "
+           "(macro_rules! with expression parameters, let / destructuring, one counted loop, pointer casts) and the hand-written meaning of the eleven instructions, "
+           "i.e. of the intrinsics _mm[256]_{add,slli,srli,shuffle}_epi32, _mm[256]_{xor,or}_si128/256, _mm256_setr_m128i, _mm256_permute2x128_si256, loadu/storeu "
+           "(Intel's pseudo-code on lists of lanes); both are also exercised by the correspondence on the SSE2 and AVX2 harness builds and the hook for the portable one",
+           "the dispatch between the back ends (cfg target_feature) and the buffered generator around `block` are hand-modelled (Model/Block.lean) and tied by the correspondence"]
 ASSUMPTIONS = ["x86_64 with SSE2/AVX2 available on the sandbox CPU"]
+
+
+def regenerate():
+    import os, sys
+    sys.path.insert(0, os.path.join(C.VERIF, "tools"))
+    import extract
+    extract.main()
 
 
 def builds(tier):
